@@ -106,6 +106,10 @@ func main() {
 					recv = id.Name
 				}
 			}
+			curRecvType, curRecvName = recv, ""
+			if fd.Recv != nil && len(fd.Recv.List) == 1 && len(fd.Recv.List[0].Names) == 1 {
+				curRecvName = fd.Recv.List[0].Names[0].Name
+			}
 			if entryFuncs[recv+"."+fname] {
 				add(fd.Body.Lbrace+1, fmt.Sprintf(" verifYield(%q);", site(fname, "entry")))
 			}
@@ -199,8 +203,13 @@ func main() {
 
 // gatedMutex: only the registration mutex of the Mux is held across yield
 // points; per-stream mutexes guard straight-line sections in which no task can
-// park, so gating them would only add steps.
-func gatedMutex(expr string) bool { return expr == "m.mu" }
+// park, so gating them would only add steps. Recognised by shape, not by name:
+// a field of the receiver inside a method of *Mux / Mux.
+func gatedMutex(expr string) bool {
+	return curRecvType == "Mux" && curRecvName != "" && strings.HasPrefix(expr, curRecvName+".") && strings.Count(expr, ".") == 1
+}
+
+var curRecvType, curRecvName string
 
 func selCall(c *ast.CallExpr) (ast.Expr, string) {
 	sel, ok := c.Fun.(*ast.SelectorExpr)
